@@ -2,198 +2,291 @@ import OPM.Model.RunRecords
 /-! Invariant of the run life-cycle model (repaired code, `guarded = true`) and its preservation. -/
 namespace OPM.RunRecords
 
+/-- run `r` is open at an engine: it is the active run, or it is parked in the RecentEngines row while the
+    engine is not registered (disconnected) -/
+def openAt (E : Engine) (r : Nat) : Prop :=
+  E.run = some r ∨ (E.registered = false ∧ E.recentEngineRun = some (some r))
+
 /-- What holds in every reachable state of the repaired code. -/
 structure Good (s : State) : Prop where
-  plNodup : s.plotLogs.Nodup
-  rrNodup : s.recentRuns.Nodup
+  plNodup : (runIds s.plotLogs).Nodup
+  rrNodup : (runIds s.recentRuns).Nodup
   /-- no map entry ⇒ no run data -/
-  unreg : s.registered = false → s.run = none
-  /-- the active run has its plot log -/
-  active : ∀ r, s.run = some r → r ∈ s.plotLogs
+  unreg : ∀ e, (s.eng e).registered = false → (s.eng e).run = none
+  /-- an active run has its plot log -/
+  active : ∀ e r, (s.eng e).run = some r → r ∈ runIds s.plotLogs
   /-- a run parked in the RecentEngines row during a disconnect has its plot log -/
-  parked : s.registered = false → ∀ r, s.recentEngineRun = some (some r) → r ∈ s.plotLogs
-  /-- every plot log belongs to a run that is stored as recent run, or is active, or is parked -/
-  accounted : ∀ r ∈ s.plotLogs,
-    r ∈ s.recentRuns ∨ s.run = some r ∨ (s.registered = false ∧ s.recentEngineRun = some (some r))
+  parked : ∀ e, (s.eng e).registered = false → ∀ r, (s.eng e).recentEngineRun = some (some r) → r ∈ runIds s.plotLogs
+  /-- every plot log belongs to a run that is stored as recent run, or is open at some engine -/
+  accounted : ∀ r ∈ runIds s.plotLogs, r ∈ runIds s.recentRuns ∨ ∃ e, openAt (s.eng e) r
   /-- every recent run has a plot log -/
-  rrHasPl : ∀ r ∈ s.recentRuns, r ∈ s.plotLogs
+  rrHasPl : ∀ r ∈ runIds s.recentRuns, r ∈ runIds s.plotLogs
 
 theorem good_init : Good init := by
-  constructor <;> simp [init]
+  constructor <;> simp [init, runIds]
 
-/-- `xs` with `r` added unless present (what a guarded insert does to a run-id column). -/
-def addOnce (xs : List Nat) (r : Nat) : List Nat := if r ∈ xs then xs else xs ++ [r]
+/-- rows with `(e, r)` added unless a row with run id `r` is present (what a guarded insert does) -/
+def addOnce (rows : List Row) (e r : Nat) : List Row := if r ∈ runIds rows then rows else rows ++ [(e, r)]
 
-theorem mem_addOnce (xs : List Nat) (r q : Nat) : q ∈ addOnce xs r ↔ q ∈ xs ∨ q = r := by
-  unfold addOnce; split <;> simp <;> grind
+theorem mem_addOnce (rows : List Row) (e r q : Nat) : q ∈ runIds (addOnce rows e r) ↔ q ∈ runIds rows ∨ q = r := by
+  unfold addOnce
+  split
+  · rename_i h
+    constructor
+    · exact Or.inl
+    · rintro (h' | h')
+      · exact h'
+      · rw [h']; exact h
+  · simp only [runIds, List.map_append, List.map_cons, List.map_nil, List.mem_append, List.mem_singleton]
 
-theorem nodup_addOnce (xs : List Nat) (r : Nat) (h : xs.Nodup) : (addOnce xs r).Nodup := by
+theorem nodup_addOnce (rows : List Row) (e r : Nat) (h : (runIds rows).Nodup) : (runIds (addOnce rows e r)).Nodup := by
   unfold addOnce; split
   · exact h
-  · rw [List.nodup_append]; refine ⟨h, by simp, ?_⟩; intro a ha b hb; simp at hb; subst hb; grind
+  · rename_i hn
+    simp only [runIds, List.map_append, List.map_cons, List.map_nil] at hn ⊢
+    rw [List.nodup_append]; refine ⟨h, by simp, ?_⟩; intro a ha b hb; simp at hb; subst hb; grind
 
-theorem createPlotLog_eq (s : State) (r : Nat) :
-    createPlotLog true s r = { s with plotLogs := addOnce s.plotLogs r } := by
-  unfold createPlotLog addOnce; by_cases h : r ∈ s.plotLogs <;> simp [h]
+theorem createPlotLog_eq (s : State) (e r : Nat) :
+    createPlotLog true s e r = { s with plotLogs := addOnce s.plotLogs e r } := by
+  unfold createPlotLog addOnce; by_cases h : r ∈ runIds s.plotLogs <;> simp [h]
 
-theorem storeRecentRun_eq (s : State) (r : Nat) :
-    storeRecentRun true s r = { s with recentRuns := addOnce s.recentRuns r } := by
-  unfold storeRecentRun addOnce; by_cases h : r ∈ s.recentRuns <;> simp [h]
+theorem storeRecentRun_eq (s : State) (e r : Nat) :
+    storeRecentRun true s e r = { s with recentRuns := addOnce s.recentRuns e r } := by
+  unfold storeRecentRun addOnce; by_cases h : r ∈ runIds s.recentRuns <;> simp [h]
 
 /-- The state after each message, written out (repaired code). -/
-theorem step_start_eq (s : State) (r : Nat) (hreg : s.registered = true) :
-    (step true s (.start r)).1 =
-      { s with run := some r, plotLogs := addOnce s.plotLogs r,
-               recentRuns := match s.run with
-                 | some q => if q = r then s.recentRuns else addOnce s.recentRuns q
-                 | none => s.recentRuns } := by
+theorem step_start_eq (s : State) (e r : Nat) (hreg : (s.eng e).registered = true) :
+    (∀ x, (step true s (.start e r)).1.eng x = if x = e then { s.eng e with run := some r } else s.eng x) ∧
+    (step true s (.start e r)).1.plotLogs = addOnce s.plotLogs e r ∧
+    (step true s (.start e r)).1.recentRuns =
+      (match (s.eng e).run with
+       | some q => if q = r then s.recentRuns else addOnce s.recentRuns e q
+       | none => s.recentRuns) := by
   unfold step
   simp only [hreg, Bool.not_true, Bool.false_eq_true, if_false]
-  cases hrun : s.run with
-  | none => simp [createPlotLog_eq]
+  cases hrun : (s.eng e).run with
+  | none => simp [createPlotLog_eq, setEng]
   | some q =>
     by_cases hq : q = r
-    · subst hq; simp [createPlotLog_eq, hreg, hrun]
-    · simp [hq, createPlotLog_eq, storeRecentRun_eq, hreg]
+    · subst hq
+      simp only [if_true, createPlotLog_eq]
+      refine ⟨?_, trivial, trivial⟩
+      intro x
+      by_cases hx : x = e
+      · subst hx
+        cases hE : s.eng x
+        rw [hE] at hrun
+        simp_all
+      · simp [hx]
+    · simp [hq, createPlotLog_eq, storeRecentRun_eq, setEng]
 
-theorem step_stop_eq (s : State) (r : Nat) (hreg : s.registered = true) :
-    (step true s (.stop r)).1 =
-      match s.run with
-      | none => s
-      | some q => { s with run := none, recentRuns := addOnce s.recentRuns q } := by
+theorem step_stop_eq (s : State) (e r : Nat) (hreg : (s.eng e).registered = true) :
+    (∀ x, (step true s (.stop e r)).1.eng x = if x = e then { s.eng e with run := none } else s.eng x) ∧
+    (step true s (.stop e r)).1.plotLogs = s.plotLogs ∧
+    (step true s (.stop e r)).1.recentRuns =
+      (match (s.eng e).run with
+       | some q => addOnce s.recentRuns e q
+       | none => s.recentRuns) := by
   unfold step
   simp only [hreg, Bool.not_true, Bool.false_eq_true, if_false]
-  cases hrun : s.run with
-  | none => simp
-  | some q => simp [storeRecentRun_eq, hreg]
+  cases hrun : (s.eng e).run with
+  | none =>
+    refine ⟨?_, rfl, rfl⟩
+    intro x
+    by_cases hx : x = e
+    · subst hx
+      cases hE : s.eng x
+      rw [hE] at hrun
+      simp_all
+    · simp [hx]
+  | some q => simp [storeRecentRun_eq, setEng]
 
-theorem step_register_eq (s : State) :
-    (step true s .register).1 =
-      if s.registered then s
-      else { s with registered := true, run := match s.recentEngineRun with
-                                                | some (some r) => some r
-                                                | _ => none } := by
-  simp only [step]; split <;> rfl
+theorem step_unregistered (g : Bool) (s : State) (e r : Nat) (hreg : (s.eng e).registered = false) :
+    step g s (.start e r) = (s, .notRegistered) ∧ step g s (.stop e r) = (s, .notRegistered) ∧
+    step g s (.disconnect e) = (s, .ok) := by
+  simp [step, hreg]
 
-theorem step_disconnect_eq (s : State) :
-    (step true s .disconnect).1 =
-      if s.registered then { s with registered := false, run := none, recentEngineRun := some s.run } else s := by
-  simp only [step]; split <;> rfl
+theorem step_register_eq (g : Bool) (s : State) (e : Nat) :
+    (∀ x, (step g s (.register e)).1.eng x =
+      if x = e ∧ (s.eng e).registered = false then
+        { s.eng e with registered := true, run := restoredRun (s.eng e) }
+      else s.eng x) ∧
+    (step g s (.register e)).1.plotLogs = s.plotLogs ∧ (step g s (.register e)).1.recentRuns = s.recentRuns := by
+  cases hreg : (s.eng e).registered with
+  | true => simp [step, hreg]
+  | false => simp [step, hreg, setEng]
+
+theorem step_disconnect_eq (g : Bool) (s : State) (e : Nat) :
+    (∀ x, (step g s (.disconnect e)).1.eng x =
+      if x = e ∧ (s.eng e).registered = true then
+        { s.eng e with registered := false, run := none, recentEngineRun := some (s.eng e).run }
+      else s.eng x) ∧
+    (step g s (.disconnect e)).1.plotLogs = s.plotLogs ∧ (step g s (.disconnect e)).1.recentRuns = s.recentRuns := by
+  cases hreg : (s.eng e).registered with
+  | false => simp [step, hreg]
+  | true => simp [step, hreg, setEng]
+
+
+theorem good_register (s : State) (e : Nat) (h : Good s) : Good (step true s (.register e)).1 := by
+  obtain ⟨h1, h2, h3, h4, h5, h6, h7⟩ := h
+  obtain ⟨he, hp, hr⟩ := step_register_eq true s e
+  constructor
+  · rw [hp]; exact h1
+  · rw [hr]; exact h2
+  · intro x hx; rw [he x] at hx ⊢; grind
+  · intro x r hx; rw [he x] at hx; rw [hp]
+    split at hx
+    · rename_i hc
+      simp only [restoredRun] at hx
+      split at hx
+      · rename_i q hq; cases hx; exact h5 e hc.2 _ hq
+      · cases hx
+    · exact h4 x r hx
+  · intro x hx r hr'; rw [he x] at hx hr'; rw [hp]; grind
+  · intro r hr'; rw [hp] at hr'; rw [hr]
+    rcases h6 r hr' with hh | ⟨x, hh⟩
+    · exact Or.inl hh
+    · right
+      refine ⟨x, ?_⟩
+      rw [he x]
+      unfold openAt at hh ⊢
+      by_cases hc : x = e ∧ (s.eng e).registered = false
+      · obtain ⟨rfl, hreg⟩ := hc
+        simp only [hreg, and_self, if_true]
+        rcases hh with hh | hh
+        · rw [h3 x hreg] at hh; cases hh
+        · left; simp [restoredRun, hh.2]
+      · simp only [hc, if_false]; exact hh
+  · rw [hp, hr]; exact h7
+
+theorem good_disconnect (s : State) (e : Nat) (h : Good s) : Good (step true s (.disconnect e)).1 := by
+  obtain ⟨h1, h2, h3, h4, h5, h6, h7⟩ := h
+  obtain ⟨he, hp, hr⟩ := step_disconnect_eq true s e
+  constructor
+  · rw [hp]; exact h1
+  · rw [hr]; exact h2
+  · intro x hx; rw [he x] at hx ⊢; grind
+  · intro x r hx; rw [he x] at hx; rw [hp]; grind
+  · intro x hx r hr'; rw [he x] at hx hr'; rw [hp]
+    by_cases hc : x = e ∧ (s.eng e).registered = true
+    · simp only [hc, and_self, if_true] at hr'
+      obtain ⟨rfl, _⟩ := hc
+      apply h4 x r
+      simpa using hr'
+    · simp only [hc, if_false] at hx hr'; exact h5 x hx r hr'
+  · intro r hr'; rw [hp] at hr'; rw [hr]
+    rcases h6 r hr' with hh | ⟨x, hh⟩
+    · exact Or.inl hh
+    · right
+      refine ⟨x, ?_⟩
+      rw [he x]
+      unfold openAt at hh ⊢
+      by_cases hc : x = e ∧ (s.eng e).registered = true
+      · obtain ⟨rfl, hreg⟩ := hc
+        simp only [hreg, and_self, if_true]
+        rcases hh with hh | hh
+        · right; exact ⟨trivial, by rw [hh]⟩
+        · rw [hreg] at hh; cases hh.1
+      · simp only [hc, if_false]; exact hh
+  · rw [hp, hr]; exact h7
+
+theorem good_start (s : State) (e r : Nat) (h : Good s) : Good (step true s (.start e r)).1 := by
+  by_cases hreg : (s.eng e).registered = true
+  · obtain ⟨h1, h2, h3, h4, h5, h6, h7⟩ := h
+    obtain ⟨he, hp, hr⟩ := step_start_eq s e r hreg
+    have hrr : ∀ q, q ∈ runIds (step true s (.start e r)).1.recentRuns ↔
+        q ∈ runIds s.recentRuns ∨ (∃ p, (s.eng e).run = some p ∧ p ≠ r ∧ q = p) := by
+      intro q; rw [hr]
+      cases hrun : (s.eng e).run with
+      | none => simp
+      | some p =>
+        by_cases hpr : p = r
+        · simp [hpr]
+        · simp [hpr, mem_addOnce]
+    constructor
+    · rw [hp]; exact nodup_addOnce _ _ _ h1
+    · rw [hr]
+      cases hrun : (s.eng e).run with
+      | none => exact h2
+      | some q => simp only; split
+                  · exact h2
+                  · exact nodup_addOnce _ _ _ h2
+    · intro x hx; rw [he x] at hx ⊢; grind
+    · intro x q hx; rw [he x] at hx; rw [hp, mem_addOnce]; grind
+    · intro x hx q hq; rw [he x] at hx hq; rw [hp, mem_addOnce]; grind
+    · intro q hq
+      rw [hp, mem_addOnce] at hq
+      rw [hrr]
+      by_cases hqr : q = r
+      · right; exact ⟨e, by rw [he e]; left; simp [hqr]⟩
+      · have hq' : q ∈ runIds s.plotLogs := by grind
+        rcases h6 q hq' with hh | ⟨x, hh⟩
+        · exact Or.inl (Or.inl hh)
+        · by_cases hx : x = e
+          · subst hx
+            unfold openAt at hh
+            rcases hh with hh | hh
+            · left; right; exact ⟨q, hh, hqr, rfl⟩
+            · rw [hreg] at hh; cases hh.1
+          · right; refine ⟨x, ?_⟩; rw [he x]; simp only [hx, if_false]; exact hh
+    · intro q hq
+      rw [hrr] at hq
+      rw [hp, mem_addOnce]
+      rcases hq with hq | ⟨p, hp', _, rfl⟩
+      · exact Or.inl (h7 q hq)
+      · exact Or.inl (h4 e q hp')
+  · have : (step true s (.start e r)).1 = s := by
+      rw [(step_unregistered true s e r (by simpa using hreg)).1]
+    rw [this]; exact h
+
+theorem good_stop (s : State) (e r : Nat) (h : Good s) : Good (step true s (.stop e r)).1 := by
+  by_cases hreg : (s.eng e).registered = true
+  · obtain ⟨h1, h2, h3, h4, h5, h6, h7⟩ := h
+    obtain ⟨he, hp, hr⟩ := step_stop_eq s e r hreg
+    have hrr : ∀ q, q ∈ runIds (step true s (.stop e r)).1.recentRuns ↔
+        q ∈ runIds s.recentRuns ∨ (s.eng e).run = some q := by
+      intro q; rw [hr]
+      cases hrun : (s.eng e).run with
+      | none => simp
+      | some p => simp [mem_addOnce]; grind
+    constructor
+    · rw [hp]; exact h1
+    · rw [hr]
+      cases hrun : (s.eng e).run with
+      | none => exact h2
+      | some q => exact nodup_addOnce _ _ _ h2
+    · intro x hx; rw [he x] at hx ⊢; grind
+    · intro x q hx; rw [he x] at hx; rw [hp]; grind
+    · intro x hx q hq; rw [he x] at hx hq; rw [hp]; grind
+    · intro q hq
+      rw [hp] at hq
+      rw [hrr]
+      rcases h6 q hq with hh | ⟨x, hh⟩
+      · exact Or.inl (Or.inl hh)
+      · by_cases hx : x = e
+        · subst hx
+          unfold openAt at hh
+          rcases hh with hh | hh
+          · exact Or.inl (Or.inr hh)
+          · rw [hreg] at hh; cases hh.1
+        · right; refine ⟨x, ?_⟩; rw [he x]; simp only [hx, if_false]; exact hh
+    · intro q hq
+      rw [hrr] at hq
+      rw [hp]
+      rcases hq with hq | hq
+      · exact h7 q hq
+      · exact h4 e q hq
+  · have : (step true s (.stop e r)).1 = s := by
+      rw [(step_unregistered true s e r (by simpa using hreg)).2.1]
+    rw [this]; exact h
 
 /-- The invariant is preserved by every message, in every state. -/
 theorem good_step (s : State) (op : Op) (h : Good s) : Good (step true s op).1 := by
-  obtain ⟨h1, h2, h3, h4, h5, h6, h7⟩ := h
   cases op with
-  | register =>
-    rw [step_register_eq]
-    split
-    · exact ⟨h1, h2, h3, h4, h5, h6, h7⟩
-    · rename_i hreg
-      have hreg' : s.registered = false := by simpa using hreg
-      have hrun := h3 hreg'
-      constructor <;> simp only
-      · exact h1
-      · exact h2
-      · intro hh; cases hh
-      · intro r hr
-        split at hr
-        · rename_i q hq; cases hr; exact h5 hreg' _ hq
-        · cases hr
-      · intro hh; cases hh
-      · intro r hr
-        rcases h6 r hr with hh | hh | hh
-        · exact Or.inl hh
-        · rw [hrun] at hh; cases hh
-        · right; left; rw [hh.2]
-      · exact h7
-  | disconnect =>
-    rw [step_disconnect_eq]
-    split
-    · rename_i hreg
-      constructor <;> simp only
-      · exact h1
-      · exact h2
-      · intro _; trivial
-      · intro r hr; cases hr
-      · intro _ r hr
-        apply h4
-        simpa using hr
-      · intro r hr
-        rcases h6 r hr with hh | hh | hh
-        · exact Or.inl hh
-        · right; right; exact ⟨trivial, by rw [hh]⟩
-        · rw [hreg] at hh; cases hh.1
-      · exact h7
-    · exact ⟨h1, h2, h3, h4, h5, h6, h7⟩
-  | start r =>
-    by_cases hreg : s.registered = true
-    · rw [step_start_eq s r hreg]
-      constructor <;> simp only
-      · exact nodup_addOnce _ _ h1
-      · cases hrun : s.run with
-        | none => exact h2
-        | some q => simp only; split
-                    · exact h2
-                    · exact nodup_addOnce _ _ h2
-      · intro hh; rw [hreg] at hh; cases hh
-      · intro q hq; cases hq; rw [mem_addOnce]; exact Or.inr rfl
-      · intro hh; rw [hreg] at hh; cases hh
-      · intro q hq
-        rw [mem_addOnce] at hq
-        rcases hq with hq | hq
-        · rcases h6 q hq with hh | hh | hh
-          · left
-            cases hrun : s.run with
-            | none => exact hh
-            | some p => simp only; split
-                        · exact hh
-                        · rw [mem_addOnce]; exact Or.inl hh
-          · by_cases hqr : q = r
-            · right; left; rw [hqr]
-            · left; rw [hh]; simp only [hqr, if_false]; rw [mem_addOnce]; exact Or.inr rfl
-          · rw [hreg] at hh; cases hh.1
-        · right; left; rw [hq]
-      · intro q hq
-        rw [mem_addOnce]
-        cases hrun : s.run with
-        | none => rw [hrun] at hq; exact Or.inl (h7 q hq)
-        | some p =>
-          rw [hrun] at hq; simp only at hq
-          split at hq
-          · exact Or.inl (h7 q hq)
-          · rw [mem_addOnce] at hq
-            rcases hq with hq | hq
-            · exact Or.inl (h7 q hq)
-            · exact Or.inl (h4 q (by rw [hrun, hq]))
-    · have : (step true s (.start r)).1 = s := by
-        unfold step; simp [hreg]
-      rw [this]; exact ⟨h1, h2, h3, h4, h5, h6, h7⟩
-  | stop r =>
-    by_cases hreg : s.registered = true
-    · rw [step_stop_eq s r hreg]
-      cases hrun : s.run with
-      | none => exact ⟨h1, h2, h3, h4, h5, h6, h7⟩
-      | some p =>
-        constructor <;> simp only
-        · exact h1
-        · exact nodup_addOnce _ _ h2
-        · intro _; trivial
-        · intro q hq; cases hq
-        · intro hh; rw [hreg] at hh; cases hh
-        · intro q hq
-          left; rw [mem_addOnce]
-          rcases h6 q hq with hh | hh | hh
-          · exact Or.inl hh
-          · rw [hrun] at hh; cases hh; exact Or.inr rfl
-          · rw [hreg] at hh; cases hh.1
-        · intro q hq
-          rw [mem_addOnce] at hq
-          rcases hq with hq | hq
-          · exact h7 q hq
-          · exact h4 q (by rw [hrun, hq])
-    · have : (step true s (.stop r)).1 = s := by
-        unfold step; simp [hreg]
-      rw [this]; exact ⟨h1, h2, h3, h4, h5, h6, h7⟩
+  | register e => exact good_register s e h
+  | disconnect e => exact good_disconnect s e h
+  | start e r => exact good_start s e r h
+  | stop e r => exact good_stop s e r h
 
 theorem good_run (s : State) (ops : List Op) (h : Good s) : Good (run true s ops) := by
   induction ops generalizing s with
@@ -203,7 +296,40 @@ theorem good_run (s : State) (ops : List Op) (h : Good s) : Good (run true s ops
 /-- Rows are never removed: the tables only grow. -/
 theorem step_mono (g : Bool) (s : State) (op : Op) :
     (∀ r ∈ s.plotLogs, r ∈ (step g s op).1.plotLogs) ∧ (∀ r ∈ s.recentRuns, r ∈ (step g s op).1.recentRuns) := by
-  cases op <;> simp only [step, createPlotLog, storeRecentRun] <;> (repeat' split) <;> simp_all
+  have hc : ∀ (s : State) (e r : Nat), (∀ x ∈ s.plotLogs, x ∈ (createPlotLog g s e r).plotLogs) ∧
+      (createPlotLog g s e r).recentRuns = s.recentRuns := by
+    intro s e r; unfold createPlotLog; split <;> simp_all
+  have hs : ∀ (s : State) (e r : Nat), (∀ x ∈ s.recentRuns, x ∈ (storeRecentRun g s e r).recentRuns) ∧
+      (storeRecentRun g s e r).plotLogs = s.plotLogs := by
+    intro s e r; unfold storeRecentRun; split <;> simp_all
+  cases op with
+  | register e => simp only [step]; split <;> simp [setEng]
+  | disconnect e => simp only [step]; split <;> simp [setEng]
+  | start e r =>
+    simp only [step]
+    split
+    · simp
+    · split
+      · have := hc (setEng s e { s.eng e with run := some r }) e r
+        exact ⟨this.1, by rw [this.2]; simp [setEng]⟩
+      · split
+        · have := hc s e r
+          exact ⟨this.1, by rw [this.2]; simp⟩
+        · rename_i q _ _
+          have h1 := hc (setEng (storeRecentRun g s e q) e { s.eng e with run := some r }) e r
+          have h2 := hs s e q
+          refine ⟨fun x hx => h1.1 x (by simp only [setEng]; rw [h2.2]; exact hx), ?_⟩
+          rw [h1.2]; simp only [setEng]; exact h2.1
+  | stop e r =>
+    simp only [step]
+    split
+    · simp
+    · split
+      · simp
+      · rename_i q _
+        have h2 := hs s e q
+        simp only [setEng]
+        exact ⟨by rw [h2.2]; simp, h2.1⟩
 
 theorem run_mono (g : Bool) (s : State) (ops : List Op) :
     (∀ r ∈ s.plotLogs, r ∈ (run g s ops).plotLogs) ∧ (∀ r ∈ s.recentRuns, r ∈ (run g s ops).recentRuns) := by
@@ -214,7 +340,15 @@ theorem run_mono (g : Bool) (s : State) (ops : List Op) :
     have h2 := ih (step g s op).1
     exact ⟨fun r hr => h2.1 r (h1.1 r hr), fun r hr => h2.2 r (h1.2 r hr)⟩
 
+theorem runIds_mono (a b : List Row) (h : ∀ r ∈ a, r ∈ b) : ∀ q ∈ runIds a, q ∈ runIds b := by
+  intro q hq
+  simp only [runIds, List.mem_map] at hq ⊢
+  obtain ⟨p, hp, rfl⟩ := hq
+  exact ⟨p, h p hp, rfl⟩
+
 theorem run_append (g : Bool) (s : State) (a b : List Op) : run g s (a ++ b) = run g (run g s a) b := by
   simp [run, List.foldl_append]
+
+theorem run_cons (g : Bool) (s : State) (op : Op) (ops : List Op) : run g s (op :: ops) = run g (step g s op).1 ops := rfl
 
 end OPM.RunRecords
